@@ -68,6 +68,57 @@ def new_series(st, name="candles", wellformed=True):
     return ref
 
 
+def heap_snapshot(st):
+    snap = {}
+    for oid, p in st.heap.items():
+        n = type(p).__name__
+        if n in ("ListP", "SetP"):
+            snap[oid] = ("seq", list(p.items))
+        elif n == "DictP":
+            snap[oid] = ("map", dict(p.items))
+        elif n == "ObjP":
+            snap[oid] = ("map", dict(p.fields))
+        elif hasattr(p, "gen"):
+            snap[oid] = ("gen", p.gen)
+    return snap
+
+
+def _same_value(a, b):
+    if a is b:
+        return True
+    if isinstance(a, vals.Ref) and isinstance(b, vals.Ref):
+        return a.oid == b.oid
+    if vals.is_sym(a) or vals.is_sym(b):
+        ta, tb = getattr(a, "t", None), getattr(b, "t", None)
+        return type(a) is type(b) and ta is not None and tb is not None and z3.is_expr(ta) and z3.is_expr(tb) and ta.eq(tb)
+    try:
+        return type(a) is type(b) and a == b
+    except Exception:
+        return False
+
+
+def heap_changes(before, st):
+    """objects that existed before the call and differ now (modifies-nothing check)"""
+    out = []
+    for oid, (kind, old) in before.items():
+        p = st.heap.get(oid)
+        if p is None:
+            continue
+        n = type(p).__name__
+        if kind == "seq":
+            if len(p.items) != len(old) or not all(_same_value(x, y) for x, y in zip(p.items, old)):
+                out.append(f"{n}#{oid}")
+        elif kind == "map":
+            cur = p.items if n == "DictP" else p.fields
+            if set(cur) != set(old) or not all(_same_value(cur[k], old[k]) for k in cur):
+                changed = sorted(str(k) for k in set(cur) ^ set(old)) or sorted(str(k) for k in cur if not _same_value(cur[k], old[k]))
+                out.append(f"{getattr(getattr(p, 'cls', None), 'name', n)}#{oid}.{','.join(changed)[:80]}")
+        elif kind == "gen":
+            if p.gen != old:
+                out.append(f"{n}#{oid}")
+    return out
+
+
 def run_task(source, contracts, loops, qualname, natives=None, timeout_ms=10000, force_inline=(), props=None,
              builder=None, extra_contract=None):
     """builder(ex, st) -> iterable of (st, args, kwargs, env_for_spec) overrides the default
@@ -98,6 +149,8 @@ def run_task(source, contracts, loops, qualname, natives=None, timeout_ms=10000,
             st0.frames.append({"__module__": module})
             for item in builder(ex, st0):
                 starts.append(item)
+            if contract is None:
+                contract = None
         else:
             params = [a.arg for a in fnode.args.posonlyargs + fnode.args.args + fnode.args.kwonlyargs]
             alts = []
@@ -113,6 +166,31 @@ def run_task(source, contracts, loops, qualname, natives=None, timeout_ms=10000,
                 for p, (v, assumes) in combo:
                     if v == "__series__":
                         v = new_series(st, p)
+                    elif v == "__indicator__":
+                        from .objects import instantiate
+                        from .values import SInt
+
+                        sref = new_series(st, "candles")
+                        cls = source.module("hexital.indicators.ema").classes["EMA"]
+                        outs = list(instantiate(ex, cls, [], {"candles": sref, "period": SInt(z3.Int("period"))}, st, None))
+                        outs = [(s1, o) for s1, o in outs if ctx.feasible(s1)]
+                        # the constructor forks on `if candles:`; both variants end with the same fields except
+                        # for an empty list: keep the variant that adopted the given series
+                        keep = [(s1, o) for s1, o in outs if s1.heap[o.oid].fields.get("candles") == sref]
+                        if len(keep) != 1:
+                            raise Unsupported("indicator construction did not yield one state")
+                        st, v = keep[0]
+                        st.assume(st.heap[sref.oid].length > 0)
+                        st.heap[v.oid].fields["_active_index"] = SInt(z3.Int("active"))
+                        env["__st__"] = st
+                    elif v == "__symcandle__":
+                        from .symdict import SymCandleP
+
+                        v = st.alloc(SymCandleP(st, p))
+                    elif v == "__symname__":
+                        from .symdict import SKey
+
+                        v = SKey(z3.Int(p))
                     elif v == "__candle__":
                         from .series import CandleAt
 
@@ -122,11 +200,14 @@ def run_task(source, contracts, loops, qualname, natives=None, timeout_ms=10000,
                         st.inst_terms.append(("term", jj))
                         v = CandleAt(sref, jj)
                     env[p] = v
+                    st = env.pop("__st__", st)
                     for a in assumes:
                         st.assume(a)
                 starts.append((st, [env[p] for p in params], {}, env))
         res.variants = len(starts)
         for (st, args, kwargs, env) in starts:
+            if contract is not None and contract.setup is not None:
+                contract.setup(ex, st, env)
             if contract is not None:
                 contract.bind_lets(ex, st, env)
                 ev = SpecEval(ex, st, env)
@@ -147,10 +228,14 @@ def run_task(source, contracts, loops, qualname, natives=None, timeout_ms=10000,
                 return res
             old_st = st.fork()
             ctx.base_state = old_st
+            before = heap_snapshot(st)
             for st1, value in ex.inline(fv, list(args), dict(kwargs), st, fnode):
                 res.paths += 1
                 if contract is None:
                     continue
+                if contract.pure:
+                    ch = heap_changes(before, st1)
+                    ctx.oblige(st1, "frame-write", "modifies-nothing" + (": " + "; ".join(ch) if ch else ""), len(ch) == 0, fnode)
                 env2 = dict(env)
                 env2["result"] = value
                 ev = SpecEval(ex, st1, env2, old_st)
